@@ -116,4 +116,24 @@ TEXT = {
         "level_text": "stream lifecycles race with labelled incoming messages; delivery per stream is compared with the interval model and the subscription refcounts are read through a cfg hook under the connection's own locks",
         "level_note": "needs the cfg(zbus_verif) subscriptions snapshot; streams are kept polled as the property requires",
     },
+    "C21": {"engine": "zb",
+        "technique": "reference-model monitor (independent matching predicate) over generated rule/message near-miss pairs",
+        "level_text": "the real matcher and an independent predicate written from the specification judge the same (rule, message) pairs, with messages generated as hits and single-aspect near misses of each rule",
+        "level_note": "trusts vref::matchrule (the specification's examples as unit tests); well-known names undecidable locally",
+    },
+    "C22": {"engine": "zb",
+        "technique": "round-trip monitor against an independent specification-conformant rule parser",
+        "level_text": "string forms produced by the library are parsed by an independent quote-aware parser and by the library itself; equality and print/parse stability are checked for hostile argument values",
+        "level_note": "trusts vref::matchrule::parse_rule",
+    },
+    "C23": {"engine": "zb",
+        "technique": "round-trip + reference percent-codec monitor over generated addresses",
+        "level_text": "address values round-trip through Display/FromStr and reference-encoded strings must decode to the intended bytes; malformed escapes must be refused",
+        "level_note": "values are raw bytes 1..255 in OS strings (Linux)",
+    },
+    "C34": {"engine": "zb",
+        "technique": "round-trip monitor with an independent XML renderer and model projection",
+        "level_text": "documents rendered by the harness are read by the library, projected back to the harness model, written and re-read",
+        "level_note": "the harness's XML renderer escapes the five predefined entities; large documents cross the 4096-event buffer",
+    },
 }
